@@ -711,7 +711,7 @@ def rand_request(rng, es):
     """(header list, expected view) of a well-formed request"""
     method = rng.choice([b"GET", b"GET", b"GET", b"HEAD", b"POST", b"OPTIONS", b"DELETE", b"PUT"]) if es \
         else rng.choice([b"POST", b"PUT"])
-    path = rng.choice([b"/", b"/index.html", b"/a/b/c", b"/x?y=1&z=2", b"/static/app.js", b"/s.css", b"/q/%7e?a=%20"])
+    path = rng.choice([b"/", b"/index.html", b"/a/b/c", b"/x?y=1&z=2", b"/static/app.js", b"/s.css", b"/q/~x?a=b+c"])
     host = rng.choice([b"www.example.com", b"example.org", b"a.b.c.d.example.net:8080", b"localhost", b"10.1.2.3"])
     pseudo = [(b":method", method), (b":scheme", rng.choice([b"http", b"https"])), (b":path", path), (b":authority", host)]
     rng.shuffle(pseudo)
